@@ -36,6 +36,9 @@ checks = {
  "C01": ("exploration", "bounded-exhaustive program enumeration (every statement position x every statement/expression form of a grammar of the supported subset) with differential execution: native Go vs a GooseLang reference interpreter run on the real goose's output, on boundary input vectors",
          "Every program of the grammar (quick: 11 positions, thorough: 20 positions; ~320 forms) is accepted by goose and the emitted GooseLang, interpreted, returns exactly Go's results (whole environment observed, aliasing included) on 28 boundary input vectors, without getting stuck.",
          "GooseLang semantics = reference interpreter in mc/gl, gated by the repository's semantics corpus (86/86 test* functions evaluate to #true); program depth and input domains bounded", "2 C01"),
+ "C02": ("exploration", "bounded-exhaustive enumeration of a catalogue of out-of-subset / look-alike constructs x statement positions; per declaration: rejected by the real goose, or accepted and judged by the differential Go vs GooseLang-interpreter oracle of C01",
+         "Every catalogue construct (unsupported assignment operators, operators, conversions, slice forms, literals, statement kinds, control-flow shapes, function-value calls, interface/generic/variadic/named-type declarations, goroutine forms ...) at every position is either rejected with a conversion error or translated faithfully on 28 input vectors.",
+         "same trusted interpreter as C01; catalogue bounds; constructs whose GooseLang meaning cannot be pinned offline (string ordering, mixed-width shifts) are not judged", "2 C02"),
 }
 todo = {}
 man = {
